@@ -90,7 +90,7 @@ def gen_lens(rng, npop, glob):
     return kw, lt, data
 
 
-def gen_case(rng, mixed=False):
+def gen_case(rng, mixed=False, same_system=False):
     """mixed: a sample in which a kinematic lens whose scaling list has NO slope precedes lenses that carry their own slope
     (the running slope index must advance for slope lenses only)"""
     npop = rng.choice([0, 0, 1, 2, 3])
@@ -120,6 +120,25 @@ def gen_case(rng, mixed=False):
         if rng.random() < 0.5:
             head.append(draw(lambda sl: bool(sl) and "gamma_pl" in sl))
         lenses = head + lenses[:2]
+    if same_system or (len(lenses) >= 2 and rng.random() < 0.25):
+        # one lens system entering with several data sets (double source plane + time delays + kinematics …): the entries
+        # share z_lens and z_source exactly; each keeps its own data
+        if same_system:
+            def draw_t(pred):
+                for _ in range(500):
+                    l = gen_lens(rng, npop, glob)
+                    if pred(l[1]):
+                        return l
+                raise RuntimeError("generator")
+            lenses = [draw_t(lambda lt: lt == "DSPL"), draw_t(lambda lt: lt != "DSPL")] + lenses[:2]
+        zl, zs = lenses[0][0]["z_lens"], lenses[0][0]["z_source"]
+        for kw, lt, _ in lenses[1:]:
+            if same_system or rng.random() < 0.6:
+                d2 = kw.get("z_source2", None)
+                off = (d2 - kw["z_source"]) if d2 is not None else None
+                kw["z_lens"], kw["z_source"] = zl, zs
+                if off is not None:
+                    kw["z_source2"] = zs + off
     nslope = sum(1 for kw, _, _ in lenses if "gamma_pl" in kw.get("kin_scaling_param_list", [])) if not gglobal else 0
     hyper = dict(kwargs_lens=dict(lambda_mst=rng.uniform(0.9, 1.1), lambda_ifu=rng.uniform(0.9, 1.1), gamma_ppn=rng.uniform(0.8, 1.2),
                                   lambda_mst_sigma=0.0, lambda_ifu_sigma=0.0, alpha_lambda=rng.uniform(-0.1, 0.1)),
@@ -347,7 +366,7 @@ def run(ctx, res):
     lines, meta = [], []
     from hierarc.Likelihood.lens_sample_likelihood import LensSampleLikelihood
     for t in range(n):
-        case = gen_case(rng, mixed=(t in (1, 2, 3)))
+        case = gen_case(rng, mixed=(t in (1, 2, 3)), same_system=(t in (4, 5)))
         try:
             fails, sample, terms, total = oracle(case, rng)
         except Exception as e:  # noqa
